@@ -504,6 +504,9 @@ def call_builtin(I, live, args, kwargs, node=None):
 def set_to_seq(I, v, why):
     """an arbitrary enumeration of a symbolic set as a sequence (order unknown)"""
     c = I.ctx
+    if I.codec is not None and why != "sorted":
+        # the enumeration order of a set is not a function of its value (codec determinism rule)
+        I.codec.order_events.append(("set-order", f"{why}(set)"))
     res = c.fresh(f"{why}_of_set", z3.SeqSort(v.ty.elem.sort()))
     x = z3.Const("enum_x", v.ty.elem.sort())
     c.assume(z3.ForAll([x], z3.Contains(res, z3.Unit(x)) == z3.Select(v.t, x)))
